@@ -52,10 +52,12 @@ Value& STRPOSExpression::value(Context & ctx) const
         val.swap(std::move(v));
         return val;
       case Type::INTEGER:
-        s = *a2.integer();
+        if (!a2.isNull())
+          s = *a2.integer();
         break;
       case Type::NUMERIC:
-        s = Integer(*a2.numeric());
+        if (!a2.isNull())
+          s = Integer(*a2.numeric());
         break;
       default:
         throw RuntimeError(EXC_RT_FUNC_ARG_TYPE_S, KEYWORDS[oper]);
